@@ -1,6 +1,6 @@
 """tables for C16 (src/ircdb.py writers/readers, src/unpreserve.py, src/ircutils.py folding)"""
 import ast, string
-from gen_tables import table, tree, module_assign, find_def, find_class, need, cstr, clist, cN
+from gen_tables import table, tree, module_assign, find_def, find_class, need, cstr, clist, cN, src
 
 USER_W = ['name', 'ignore', 'secure', 'hashed', 'password', 'capability', 'hostmask', 'nicks', 'gpgkey']
 CHAN_W = ['lobotomized', 'defaultallow', 'capability', 'ban', 'ignore']
@@ -73,6 +73,95 @@ def handlers(clsnode):
     return hs, other
 
 
+# ---- which configuration options do the readers / writers consult?  (typed call graph over ircdb.py + unpreserve.py)
+RECV = {'self.c': ['IrcChannel'], 'self.net': ['IrcNetwork'], 'self.u': ['IrcUser'], 'self.users': ['UsersDictionary'],
+        'self.channels': ['ChannelsDictionary'], 'self.networks': ['NetworksDictionary'],
+        'self.c.capabilities': ['CapabilitySet'], 'self.u.capabilities': ['UserCapabilitySet'],
+        'self.capabilities': ['CapabilitySet', 'UserCapabilitySet'], 'self.__parent': ['CapabilitySet'], 'reader': ['Reader']}
+EXTERNAL = ('utils', 'ircutils', 'log', 'os', 'time', 'operator', 'minisix', 'world', 'registry', 'conf')
+
+
+class Sweep(object):
+    def __init__(self, mods):
+        self.classes, self.bases, self.modfuncs, self.alias = {}, {}, {}, {}
+        for mod in mods:
+            for n in mod.body:
+                if isinstance(n, ast.FunctionDef):
+                    self.modfuncs[n.name] = n
+                elif isinstance(n, ast.ClassDef):
+                    self.classes[n.name] = {m.name: m for m in n.body if isinstance(m, ast.FunctionDef)}
+                    self.bases[n.name] = [ast.unparse(b) for b in n.bases]
+                elif isinstance(n, ast.Assign) and len(n.targets) == 1 and isinstance(n.targets[0], ast.Name) \
+                        and isinstance(n.value, ast.Name):
+                    self.alias[n.targets[0].id] = n.value.id
+
+    def lookup(self, cls, name):
+        while cls in self.classes:
+            if name in self.classes[cls]:
+                return [(cls, self.classes[cls][name])]
+            nxt = [b for b in self.bases[cls] if b in self.classes]
+            if not nxt:
+                break
+            cls = nxt[0]
+        return []
+
+    def resolve(self, cls, call, recv):
+        f = call.func
+        if isinstance(f, ast.Name):
+            name = self.alias.get(f.id, f.id)
+            if name in self.classes:
+                return self.lookup(name, '__init__')
+            if name in self.modfuncs:
+                return [('', self.modfuncs[name])]
+            return []
+        if isinstance(f, ast.Attribute):
+            r = ast.unparse(f.value)
+            if r == 'self':
+                if f.attr == 'Creator':
+                    return sum([self.lookup(c, '__init__') for c in recv.get('self.creator', [])], [])
+                return self.lookup(cls, f.attr)
+            if r in recv:
+                return sum([self.lookup(c, f.attr) for c in recv[r]], [])
+            if r.split('.')[0] in EXTERNAL:
+                return []
+            return [(c, self.classes[c][f.attr]) for c in self.classes if f.attr in self.classes[c]]   # unknown receiver
+        return []
+
+    def reach(self, roots, recv):
+        seen, todo = {}, list(roots)
+        while todo:
+            cls, fn = todo.pop()
+            if (cls, fn.name) in seen:
+                continue
+            seen[(cls, fn.name)] = fn
+            for n in ast.walk(fn):
+                if isinstance(n, ast.Call):
+                    todo += self.resolve(cls, n, recv)
+        return seen
+
+    def options(self, roots, recv):
+        out = set()
+        for fn in self.reach(roots, recv).values():
+            chains = [ast.unparse(n) for n in ast.walk(fn) if isinstance(n, ast.Attribute) and ast.unparse(n).startswith('conf.')]
+            for c in chains:
+                need(c.startswith('conf.supybot'), 'reader/writer code uses conf in an unknown way: ' + c)
+            out |= {c[len('conf.'):] for c in chains if c != 'conf.supybot' and not any(y.startswith(c + '.') for y in chains)}
+            for n in ast.walk(fn):       # conf handed around as a value would escape the sweep
+                if isinstance(n, ast.Name) and n.id == 'conf':
+                    pass
+        return sorted(out)
+
+    def methods(self, cls):
+        need(cls in self.classes, 'no class ' + cls)
+        return [(cls, m) for m in self.classes[cls].values()]
+
+    def reader(self, creator, dic):
+        recv = dict(RECV)
+        recv['self.creator'] = [creator]
+        return self.options(self.methods(creator) + self.methods('Reader') + self.methods('Creator')
+                            + [(dic, self.classes[dic]['open'])], recv)
+
+
 @table('T16')
 def gen_T16():
     t = tree('src/ircutils.py')
@@ -126,6 +215,27 @@ def gen_T16():
     need('self.c = IrcChannel()' in ci, 'IrcChannelCreator.__init__ no longer builds IrcChannel(): ' + ci)
     keeps_defaults = 'self.c.capabilities.clear()' not in ci
     need(ci.count('capabilities') == (0 if keeps_defaults else 1), 'IrcChannelCreator.__init__ touches capabilities in an unknown way')
+    # configuration consulted by the readers and the writers
+    sw = Sweep([d, tree('src/unpreserve.py')])
+    need('conf' not in src('src/ircutils.py').replace('configur', ''), 'ircutils.py now mentions conf: extend the sweep')
+    conf_chan = sw.reader('IrcChannelCreator', 'ChannelsDictionary')
+    conf_net = sw.reader('IrcNetworkCreator', 'NetworksDictionary')
+    conf_user = sw.reader('IrcUserCreator', 'UsersDictionary')
+    conf_ign = sw.options([('IgnoresDB', sw.classes['IgnoresDB']['open'])], RECV)
+    conf_wr = sw.options([(c, sw.classes[c][m]) for c, m in [('IrcUser', 'preserve'), ('IrcChannel', 'preserve'), ('IrcNetwork', 'preserve'),
+                                                              ('UsersDictionary', 'flush'), ('ChannelsDictionary', 'flush'),
+                                                              ('NetworksDictionary', 'flush'), ('IgnoresDB', 'flush')]], RECV)
+    # how the channel reader stores a ban / an ignore: directly, or through the validating setters
+    via = {}
+    for meth, direct, setter in (('ban', 'self.c.bans[pattern] = int(float(expiration))', 'self.c.addBan(pattern, float(expiration))'),
+                                 ('ignore', 'self.c.ignores[pattern] = int(float(expiration))', 'self.c.addIgnore(pattern, float(expiration))')):
+        body = ast.unparse(find_def(d, meth, 'IrcChannelCreator'))
+        need((direct in body) != (setter in body), 'IrcChannelCreator.%s stores its record in an unknown way: %s' % (meth, body))
+        via[meth] = setter in body
+    need("assert not conf.supybot.protocols.irc.strictRfc() or ircutils.isUserHostmask(hostmask), 'got %s' % hostmask\n    self.bans[hostmask] = int(expiration)"
+         in ast.unparse(find_def(d, 'addBan', 'IrcChannel')), 'IrcChannel.addBan changed')
+    need("assert ircutils.isUserHostmask(hostmask), 'got %s' % hostmask\n    self.ignores[hostmask] = int(expiration)"
+         in ast.unparse(find_def(d, 'addIgnore', 'IrcChannel')), 'IrcChannel.addIgnore changed')
     out = 'Definition FOLD : list (N * N) := %s.\n' % clist('(%d, %d)' % (ord(x), ord(y)) for x, y in fold)
     out += 'Definition WHITESPACE : list N := %s.\n' % clist(cN(i) for i in ws)
     out += 'Definition CHANTYPES : list N := %s.\n' % cstr(defaults[0])
@@ -133,6 +243,12 @@ def gen_T16():
     out += 'Definition DEFAULT_OFF : list (list N) := %s.\n' % clist(cstr(x) for x in off)
     out += 'Definition CHAN_CREATOR_DEFAULTS : bool := %s.  (* IrcChannelCreator starts from the default anticapabilities *)\n' % (
         'true' if keeps_defaults else 'false')
+    out += '(* configuration options (conf.<name>) read by the code reachable from each reader / from the writers *)\n'
+    for lab, val in (('CHAN_READER', conf_chan), ('NET_READER', conf_net), ('USER_READER', conf_user), ('IGN_READER', conf_ign),
+                     ('WRITERS', conf_wr)):
+        out += 'Definition CONF_READ_%s : list (list N) := %s.  (* %s *)\n' % (lab, clist(cstr(x) for x in val), ', '.join(val) or 'none')
+    out += 'Definition CHAN_READER_BAN_VIA_SETTER : bool := %s.\nDefinition CHAN_READER_IGN_VIA_SETTER : bool := %s.\n' % (
+        'true' if via['ban'] else 'false', 'true' if via['ignore'] else 'false')
     out += '(* writer keywords, from the format strings of the preserve/flush methods *)\n'
     out += 'Definition WH_user : list N := %s.\nDefinition WH_channel : list N := %s.\nDefinition WH_network : list N := %s.\n' % (
         cstr(hu), cstr(hc), cstr(hn))
